@@ -70,6 +70,10 @@ MUTANTS = [
      "    result = func(group_idx, np.where(isnull(array), fillna, array), *args, **kwargs)\n",
      "    mask = isnull(array)\n    if mask.any() and array.flags.writeable and array.dtype.kind == 'f':\n        array[mask] = fillna  # avoid the copy np.where makes\n        result = func(group_idx, array, *args, **kwargs)\n        array[mask] = np.nan\n    else:\n        result = func(group_idx, np.where(isnull(array), fillna, array), *args, **kwargs)\n",
      ["C13"], "NaN substitution done in place and undone afterwards: a transient write into the input block"),
+    ("m23", "flox/core.py",
+     "            futures = [\n                executor.submit(chunk_unique, labels, slicer, nlabels)\n",
+     "            shared = np.empty((nlabels + 1,), dtype=bool)  # allocate the scratch buffer once\n            futures = [\n                executor.submit(chunk_unique, labels, slicer, nlabels, shared)\n",
+     ["C09"], "planner thread-pool jobs share one scratch buffer (a data race only an interleaving inside the jobs exposes)"),
     ("m20", "flox/core.py", '            groups_in_block = tuple(\n                _unique(by_input[slc]) if sort else pd.unique(by_input[slc].reshape(-1)) for slc in slices\n            )\n',
      '            groups_in_block = tuple(_unique(by_input[slc]) for slc in slices)\n', ["C16", "C05"],
      "blockwise announces sorted labels for sort=False (the defect fixed in e35fe4d)"),
